@@ -100,7 +100,7 @@ class Parser:
         return cls(rules, doc, optimizer=optimizer, debug=debug)
 
     def __str__(self) -> str:
-        doc = "".join(f"//!{line}\n" for line in self.doc) + "\n" if self.doc else ""
+        doc = "".join(f"//! {line}\n" for line in self.doc) + "\n" if self.doc else ""
         return doc + "\n\n".join(str(rule) for rule in self.rules.values())
 
     def parse(self, start_rule: str, text: str, *, start_pos: int = 0) -> Pairs:
